@@ -90,6 +90,13 @@ def main():
         shutil.rmtree(alt, ignore_errors=True)
     dst = VERIF / "seeded" / name
     dst.mkdir(parents=True, exist_ok=True)
+    if "tests" not in res and (dst / "meta.json").exists():
+        try:
+            old = json.loads((dst / "meta.json").read_text())["results"]
+            if old.get("tests") and (dst / "patch.diff").read_text() == (src / "patch.diff").read_text():
+                res["tests"] = old["tests"]
+        except Exception:
+            pass
     for f in ("patch.diff", "demo.py"):
         if (src / f).exists():
             shutil.copy(src / f, dst / f)
